@@ -29,7 +29,10 @@ pub struct IsographDatabase<TCompilationProfile: CompilationProfile> {
 }
 
 #[derive(Debug, Default)]
-pub struct IsoLiteralMap(pub HashMap<RelativePathToSourceFile, SourceId<IsoLiteralsSource>>);
+// N.B. this is a BTreeMap (ordered by path) so that iterating over the iso literals, and thus
+// e.g. which of two duplicate definitions is reported, does not depend on hash seeds or on the
+// order in which files were discovered.
+pub struct IsoLiteralMap(pub BTreeMap<RelativePathToSourceFile, SourceId<IsoLiteralsSource>>);
 
 #[derive(Debug, Clone, PartialEq, Eq, Source)]
 pub struct SchemaSource {
@@ -146,7 +149,9 @@ impl<TCompilationProfile: CompilationProfile> IsographDatabase<TCompilationProfi
             .tracked()
             .0
             // Compare whole path components: `src/a` must not match `src/ab/file.ts`.
-            .extract_if(|k, _| std::path::Path::new(k.lookup()).starts_with(relative_path))
+            .extract_if(.., |k, _| {
+                std::path::Path::new(k.lookup()).starts_with(relative_path)
+            })
             .map(|(_, v)| v)
             .collect::<Vec<_>>();
 
